@@ -69,6 +69,21 @@ func init() {
 		ex.safety(st, "bigdivzero", Not(Eq(y, IntLit(0))), c, "big.Int division by zero")
 		return App(SInt, "trem", x, y)
 	})
+	deps[B+"QuoRem"] = &depHandler{[]string{"BigVal"}, "z.QuoRem(x,y,r): requires val(y)!=0 (panics otherwise) and z, r distinct; val(z)=truncated quotient and val(r)=truncated remainder of the operands' values before the call; returns (z,r)", func(ex *Exec, st *State, c *ssa.Call, a []SV) SV {
+		z, x, y, r := a[0].T, a[1].T, a[2].T, a[3].T
+		ex.notNil(st, z, c, "*big.Int receiver")
+		ex.notNil(st, x, c, "*big.Int operand")
+		ex.notNil(st, y, c, "*big.Int operand")
+		ex.notNil(st, r, c, "*big.Int remainder receiver")
+		xv, yv := bigVal(st, x), bigVal(st, y)
+		ex.safety(st, "bigdivzero", Not(Eq(yv, IntLit(0))), c, "big.Int division by zero")
+		ex.safety(st, "bigalias", Not(Eq(z, r)), c, "QuoRem: quotient and remainder must be distinct *big.Int")
+		q := ex.define(st, "big", App(SInt, "tdiv", xv, yv))
+		m := ex.define(st, "big", App(SInt, "trem", xv, yv))
+		ex.setBig(st, z, q)
+		ex.setBig(st, r, m)
+		return SV{K: KTuple, Tuple: []SV{Scalar(z), Scalar(r)}}
+	}}
 	deps[B+"Div"] = bigBin("z.Div(x,y): requires val(y)!=0; Euclidean quotient; returns z", func(ex *Exec, st *State, c *ssa.Call, x, y Term) Term {
 		ex.safety(st, "bigdivzero", Not(Eq(y, IntLit(0))), c, "big.Int division by zero")
 		return App(SInt, "div", x, y)
